@@ -232,7 +232,7 @@ class Rec:
             if l is None:
                 continue
             for x in fl.origins(l):
-                if x[0] == "call" and last_seg(x[1]) in ("resolve", "resolve_flags") and ("Resolve" in x[1] or "Resolve" in (x[3].get("trait") or "")):
+                if x[0] == "call" and last_seg(x[1]) in ("resolve", "resolve_flags", "get") and ("Resolve" in x[1] or "Resolve" in (x[3].get("trait") or "")):
                     from_resolve = True
         if not from_resolve:
             # owned descent: every non-resolver argument derives from the body's own parameters
